@@ -615,7 +615,29 @@ fn run_batch_check(op: &Op) -> Vec<u8> {
     }
     let compress = if op.c & 1 == 0 { Compress::Yes } else { Compress::No };
     let mut bytes = Vec::new();
-    let res = match (op.c >> 1) % 7 {
+    let res = match (op.c >> 1) % 10 {
+        7 => {
+            // twisted Edwards projective points: Projective::batch_check normalises the batch first
+            let g = jub::Projective::generator();
+            let mut w: Vec<jub::Projective> = (0..n).map(|i| g * jub::Fr::from(i as u64 + 2)).collect();
+            if op.b != u64::MAX && n > 0 {
+                // the point of order two, outside the subgroup
+                w[(op.b as usize) % n] = jub::Affine::new_unchecked(jub::Fq::from(0u64), -jub::Fq::from(1u64)).into();
+            }
+            w.serialize_with_mode(&mut bytes, compress).unwrap();
+            Vec::<jub::Projective>::deserialize_with_mode(&bytes[..], compress, Validate::Yes)
+                .map(|r| ser(&jub::Projective::normalize_batch(&r)))
+        },
+        8 => {
+            let w: std::collections::BTreeMap<u16, G1A> = v.iter().enumerate().map(|(i, p)| (i as u16, *p)).collect();
+            w.serialize_with_mode(&mut bytes, compress).unwrap();
+            std::collections::BTreeMap::<u16, G1A>::deserialize_with_mode(&bytes[..], compress, Validate::Yes).map(|r| ser(&r))
+        },
+        9 => {
+            let w: std::collections::LinkedList<(G1A, G1A)> = v.iter().map(|p| (*p, G1A::generator())).collect();
+            w.serialize_with_mode(&mut bytes, compress).unwrap();
+            std::collections::LinkedList::<(G1A, G1A)>::deserialize_with_mode(&bytes[..], compress, Validate::Yes).map(|r| ser(&r))
+        },
         4 => {
             // nested containers: each level forwards its elements to one batch check
             let w: Vec<Vec<G1A>> = v.chunks(3).map(|c| c.to_vec()).collect();
@@ -674,7 +696,7 @@ fn gen_batch_check(rng: &mut Rng) -> (u64, u64, u64) {
         7 => 0,
         _ => rng.below(a + 1) as u64,
     };
-    (a as u64, b, rng.below(14) as u64)
+    (a as u64, b, rng.below(20) as u64)
 }
 
 // ---------------------------------------------------------------- multilinear / multivariate
